@@ -84,8 +84,8 @@ func (e *Ex) opClass() string {
 func fieldEx(name string) *Ex { return &Ex{Op: "field", Text: name} }
 func litEx(text string) *Ex   { return &Ex{Op: "lit", Text: text} }
 
-var numLits = []string{"1", "0", "2", "-1", "1.5", "0.", "2(uint64)"}
-var anyLits = []string{"1", "0", "2", "1.5", `"a"`, `"abc"`, `""`, "true", "false", "null", "null(int64)"}
+var numLits = []string{"1", "0", "2", "-1", "1.5", "0.", "3"}
+var anyLits = []string{"1", "0", "2", "1.5", `"a"`, `"abc"`, `""`, "true", "false", "null"}
 
 func genScalarEx(t *rapid.T, depth int) *Ex {
 	switch ir(t, 0, 11, "scalar") {
